@@ -966,8 +966,18 @@ DLLIMPORT cfg_value_t *cfg_setopt(cfg_t *cfg, cfg_opt_t *opt, const char *value)
 						int_str = &value[1];
 				}
 			}
+			errno = 0;
 			i = strtol(int_str, &endptr, radix);
-			if (*endptr != '\0') {
+			if (radix != 0) {
+				/* after a radix prefix only digits of that radix may follow:
+				 * no blank, sign or second prefix, and "0x"/"0b" need a digit */
+				const char *digits = radix == 2 ? "01" : radix == 8 ? "01234567" : "0123456789abcdefABCDEF";
+				size_t n = strspn(int_str, digits);
+
+				if (int_str[n] != '\0' || (n == 0 && radix != 8))
+					endptr = (char *)value;
+			}
+			if (*endptr != '\0' || endptr == value) {
 				cfg_error(cfg, _("invalid integer value for option '%s'"), opt->name);
 				return NULL;
 			}
@@ -988,8 +998,9 @@ DLLIMPORT cfg_value_t *cfg_setopt(cfg_t *cfg, cfg_opt_t *opt, const char *value)
 				errno = EINVAL;
 				return NULL;
 			}
+			errno = 0;
 			f = strtod(value, &endptr);
-			if (*endptr != '\0') {
+			if (*endptr != '\0' || endptr == value) {
 				cfg_error(cfg, _("invalid floating point value for option '%s'"), opt->name);
 				return NULL;
 			}
